@@ -160,6 +160,8 @@ def call(fn, options, stdin_text=""):
         with contextlib.redirect_stdout(out):
             fn(options)
         return None, out.getvalue()
+    except HarnessError:
+        raise
     except Exception as e:      # noqa - the CLIs turn any exception into a non-zero exit
         return e, out.getvalue()
     finally:
